@@ -563,6 +563,20 @@ def o5_packed_buffer_linearity(prog):
                 if not ok:
                     r.viol('O5', key + '/advance-without-consume', fn.loc(e['ln']),
                            'packed-buffer cursor skips a %s without reading (and storing or dropping) it: the value is leaked' % ty_str(json.loads(T)), tag=fn.name)
+            # the component identified by the TypeId guard (the one being detached / attached) must be
+            # consumed exactly once on every path under the guard, whatever its size
+            if path_typeid_true(p) and tail_events(p):
+                head = head_elem_key(imp)
+                consumed = 0
+                for j, w in enumerate(evs):
+                    if w['k'] == 'ptr_read' and w['src'][0] == 'tptr' and w['src'][2] == head:
+                        if any((x['k'] == 'vec_method' and x['name'] == 'push' and any(a[0] == 'moved_out' and a[2] == w['src'] for a in x['args']))
+                               or (x['k'] == 'drop' and x['value'][0] == 'moved_out' and x['value'][2] == w['src']) for x in evs[j + 1:]):
+                            consumed += 1
+                    if w['k'] == 'assume_init':
+                        consumed += 1
+                if consumed != 1:
+                    r.viol('O5', key + '/guarded-component-not-consumed-once', fn.loc(), 'under the TypeId guard the attached/detached component is consumed %d times on a path (must be exactly once, also for zero-sized components with Drop)' % consumed, tag=fn.name)
             inits = [e for e in evs if e['k'] == 'assume_init']
             if len(inits) > 1:
                 r.viol('O5', key + '/double-assume-init', fn.loc(inits[1]['ln']), 'spare component assume_init-ed twice on one path (double use of one value)', tag=fn.name)
